@@ -14,9 +14,21 @@ namespace C03
 open Router
 
 /-- a Disconnect event (or a router-initiated close) never panics, whatever the id: live,
-    never registered or already removed -/
-theorem disconnect_never_panics (s : RState) (id : Nat) (r : Option String) :
-    ∃ s', handleDisconnection s id r = .ok s' := handleDisconnection_total s id r
+    never registered or already removed — in every reachable state (under any oracle): the wake-up
+    of the parked members of the shared groups whose turn passed on (`wake_parked`) finds the tracker
+    of every parked request, because waiter lists hold live connection ids only (`DInv`) -/
+theorem disconnect_never_panics {cfg : Config} {s : RState} (hr : Reachable cfg s) (o : List Choice)
+    (id : Nat) (r : Option String) :
+    ∃ s', handleDisconnection { s with oracle := o } id r = .ok s' := by
+  have hb : BInv { s with oracle := o } := ((Inv2.reachable hr).oracle o).binv
+  have hg := handleDisconnection_good' (A := fun _ => False) (id := id) (r := r) hb.1 hb.2
+  cases h : handleDisconnection { s with oracle := o } id r with
+  | ok s' => exact ⟨s', rfl⟩
+  | error e =>
+    rw [h] at hg
+    cases e with
+    | panic msg => exact hg.elim
+    | badChoice msg => exact absurd h (handleDisconnection_no_badChoice _ _ _ _)
 
 /-- a Disconnect for an id that is not registered changes nothing (late / duplicate signals) -/
 theorem disconnect_of_missing_id_is_noop (s : RState) (id : Nat) (h : getConn s id = none) :
@@ -149,8 +161,8 @@ theorem link_ops_never_panic {cfg : Config} {s : RState} (hr : Reachable cfg s) 
 /-- non-vacuity: reachable states exist in which these ops do something: two registered
     connections, then a stale Disconnect for a removed id and a Ready for a never-used id -/
 example : ∃ s, Reachable ⟨2, 1024, 2, 10, .roundRobin⟩ s ∧ (getConn s 0).isSome = true ∧ (getConn s 1).isSome = false :=
-  ⟨_, ⟨[(.connect { link := 0, clientId := "a", clean := true, dynamicFilters := false, aliasMax := 0, will := none }, []),
+  ⟨_, Reachable.ofX [(.connect { link := 0, clientId := "a", clean := true, dynamicFilters := false, aliasMax := 0, will := none }, []),
         (.connect { link := 1, clientId := "b", clean := true, dynamicFilters := false, aliasMax := 0, will := none }, []),
-        (.event 1 .disconnect, []), (.event 1 .disconnect, []), (.event 7 .ready, []), (.consume, [])], rfl⟩, rfl, rfl⟩
+        (.event 1 .disconnect, []), (.event 1 .disconnect, []), (.event 7 .ready, []), (.consume, [])] rfl, rfl, rfl⟩
 
 end C03
